@@ -367,6 +367,15 @@ class Negative(Term):
     def is_aggregate(self) -> bool | None:  # type:ignore[override]
         return self.term.is_aggregate
 
+    @builder
+    def replace_table(  # type:ignore[return]
+        self, current_table: "Table" | None, new_table: "Table" | None
+    ) -> "Self":
+        """
+        Replaces all occurrences of the specified table with the new table. Useful when reusing fields across queries.
+        """
+        self.term = self.term.replace_table(current_table, new_table)
+
     def get_sql(self, ctx: SqlContext) -> str:
         term_sql = self.term.get_sql(ctx.copy(with_alias=False))
         if isinstance(self.term, ArithmeticExpression) or term_sql.startswith("-"):
@@ -561,6 +570,15 @@ class Values(Term):
     def nodes_(self) -> Iterator[NodeT]:
         yield self  # type:ignore[misc]
         yield from self.field.nodes_()
+
+    @builder
+    def replace_table(  # type:ignore[return]
+        self, current_table: "Table" | None, new_table: "Table" | None
+    ) -> "Self":
+        """
+        Replaces all occurrences of the specified table with the new table. Useful when reusing fields across queries.
+        """
+        self.field = self.field.replace_table(current_table, new_table)
 
     def get_sql(self, ctx: SqlContext) -> str:
         sql = "VALUES({value})".format(value=self.field.get_sql(ctx.copy(with_alias=False)))
@@ -831,7 +849,7 @@ class NestedCriterion(Criterion):
         """
         self.left = self.left.replace_table(current_table, new_table)
         self.right = self.right.replace_table(current_table, new_table)
-        self.nested = self.right.replace_table(current_table, new_table)
+        self.nested = self.nested.replace_table(current_table, new_table)
 
     def get_sql(self, ctx: SqlContext) -> str:
         operand_ctx = ctx.copy(with_alias=False)
@@ -955,6 +973,7 @@ class ContainsCriterion(Criterion):
             A copy of the criterion with the tables replaced.
         """
         self.term = self.term.replace_table(current_table, new_table)
+        self.container = self.container.replace_table(current_table, new_table)
 
     def get_sql(self, ctx: SqlContext) -> str:
         container_ctx = ctx.copy(subquery=True, with_alias=False)
@@ -1004,6 +1023,8 @@ class BetweenCriterion(RangeCriterion):
             A copy of the criterion with the tables replaced.
         """
         self.term = self.term.replace_table(current_table, new_table)
+        self.start = self.start.replace_table(current_table, new_table)
+        self.end = self.end.replace_table(current_table, new_table)
 
     def get_sql(self, ctx: SqlContext) -> str:
         # FIXME escape
@@ -1017,6 +1038,17 @@ class BetweenCriterion(RangeCriterion):
 
 
 class PeriodCriterion(RangeCriterion):
+    @builder
+    def replace_table(  # type:ignore[return]
+        self, current_table: "Table" | None, new_table: "Table" | None
+    ) -> "Self":
+        """
+        Replaces all occurrences of the specified table with the new table. Useful when reusing fields across queries.
+        """
+        self.term = self.term.replace_table(current_table, new_table)
+        self.start = self.start.replace_table(current_table, new_table)
+        self.end = self.end.replace_table(current_table, new_table)
+
     def get_sql(self, ctx: SqlContext) -> str:
         operand_ctx = ctx.copy(with_alias=False)
         sql = "{term} FROM {start} TO {end}".format(
@@ -1377,6 +1409,15 @@ class All(Criterion):
         yield self  # type:ignore[misc]
         yield from self.term.nodes_()
 
+    @builder
+    def replace_table(  # type:ignore[return]
+        self, current_table: "Table" | None, new_table: "Table" | None
+    ) -> "Self":
+        """
+        Replaces all occurrences of the specified table with the new table. Useful when reusing fields across queries.
+        """
+        self.term = self.term.replace_table(current_table, new_table)
+
     def get_sql(self, ctx: SqlContext) -> str:
         sql = "{term} ALL".format(term=self.term.get_sql(ctx.copy(with_alias=False)))
         if ctx.with_alias:
@@ -1499,6 +1540,21 @@ class AggregateFunction(Function):
                 yield from criterion.nodes_()
 
     @builder
+    def replace_table(  # type:ignore[return]
+        self, current_table: "Table" | None, new_table: "Table" | None
+    ) -> "Self":
+        """
+        Replaces all occurrences of the specified table with the new table. Useful when reusing fields across queries.
+        """
+        self.args = [param.replace_table(current_table, new_table) for param in self.args]
+        self._filters = [
+            criterion.replace_table(current_table, new_table)
+            if hasattr(criterion, "replace_table")
+            else criterion
+            for criterion in self._filters
+        ]
+
+    @builder
     def filter(self, *filters: Any) -> AnalyticFunction:  # type:ignore[return]
         self._include_filter = True
         self._filters = self._filters + list(filters)
@@ -1536,6 +1592,34 @@ class AnalyticFunction(AggregateFunction):
         for term in self._partition + [orderby[0] for orderby in self._orderbys]:
             if hasattr(term, "nodes_"):
                 yield from term.nodes_()
+
+    @builder
+    def replace_table(  # type:ignore[return]
+        self, current_table: "Table" | None, new_table: "Table" | None
+    ) -> "Self":
+        """
+        Replaces all occurrences of the specified table with the new table. Useful when reusing fields across queries.
+        """
+        self.args = [param.replace_table(current_table, new_table) for param in self.args]
+        self._filters = [
+            criterion.replace_table(current_table, new_table)
+            if hasattr(criterion, "replace_table")
+            else criterion
+            for criterion in self._filters
+        ]
+        self._partition = [
+            term.replace_table(current_table, new_table) if hasattr(term, "replace_table") else term
+            for term in self._partition
+        ]
+        self._orderbys = [
+            (
+                term.replace_table(current_table, new_table)
+                if hasattr(term, "replace_table")
+                else term,
+                orient,
+            )
+            for term, orient in self._orderbys
+        ]
 
     @builder
     def over(self, *terms: Any) -> "Self":  # type:ignore[return]
@@ -1818,6 +1902,15 @@ class AtTimezone(Term):
     def nodes_(self) -> Iterator[NodeT]:
         yield self  # type:ignore[misc]
         yield from self.field.nodes_()
+
+    @builder
+    def replace_table(  # type:ignore[return]
+        self, current_table: "Table" | None, new_table: "Table" | None
+    ) -> "Self":
+        """
+        Replaces all occurrences of the specified table with the new table. Useful when reusing fields across queries.
+        """
+        self.field = self.field.replace_table(current_table, new_table)
 
     def get_sql(self, ctx: SqlContext) -> str:
         sql = "{name} AT TIME ZONE {interval}'{zone}'".format(
